@@ -497,6 +497,26 @@ def gen_malformed(rng, wf, dist):
         suf = rng.choice([b"x", b"-ib", b"[1-2]"]) if rng.random() < (0.12 if hi >= U64 - 1 else 0.4) else b""
         tail = rng.choice([b"", b"", b",b", b",a[0-3]"])
         return pre + b"[" + body + b"]" + suf + tail
+    if r < 0.74:
+        # the range text is echoed in the diagnostic: it must never be taken for a printf format
+        note("format-conversions")
+        convs = [b"%s", b"%n", b"%d", b"%x", b"%%", b"%1000000d", b"%*d", b"%ls", b"%hhn", b"%p", b"%c", b"%5$s", b"%"]
+        conv = b"".join(rng.choice(convs) for _ in range(rng.choice([1, 2, 4, 8, 12, 16])))
+        pre = rng.choice([b"n", b"a", b"", b"foo"])
+        shape = rng.random()
+        if shape < 0.3:
+            body = b"1-" + conv
+        elif shape < 0.5:
+            body = conv
+        elif shape < 0.65:
+            body = conv + b"-3"
+        elif shape < 0.8:
+            body = b"1-3," + conv + b",7"
+        elif shape < 0.9:
+            body = b"%d-%d%s" % (0, rng.choice(BIGNUMS), conv)
+        else:
+            return pre + b"[1-2]x[" + conv + b"]"          # reaches the parser on the second expansion pass
+        return pre + b"[" + body + b"]" + rng.choice([b"", b"", b"x", b",b"])
     if r < 0.86:
         note("brackets")
         parts = []
